@@ -125,3 +125,103 @@ def object_world(ctx, name, kinds, new, ops, do, modules, depth, check=None, equ
                        "reference (where given) + the same call as the only call of a process")
     b.update(bounds or {})
     return ctx.histories(name, [()], execute, depth=depth, nodedup_depth=nodedup_depth, bounds=b)
+
+
+# --------------------------------------------------------------------------
+# sequences of calls of "pure" module-level functions
+
+
+def _snap(r):
+    out = []
+    for v in (r if isinstance(r, (list, tuple)) else [r]):
+        a = np.asarray(v)
+        out.append((a.dtype.str if a.dtype.names is None else str(a.dtype.descr), a.shape,
+                    a.tobytes() if not a.dtype.hasobject else repr(a.tolist())))
+    return out
+
+
+def call_sequences(ctx, name, make_pool, calls, run, modules, depth, mutations=(), mutate=None, equal=None,
+                   nodedup_depth=2, bounds=None, enabled_after=None):
+    """E2 over sequences of calls of module-level functions that are documented as pure.
+
+    A pool of named argument arrays (``make_pool()`` -> dict) lives for the whole history, so the
+    SAME array objects are passed to several calls; events are ("c",)+call (``run(call, pool)`` ->
+    picklable result) and ("m",)+mutation (``mutate(mutation, pool)`` edits a pooled array in place -
+    the caller's own legitimate edit between two calls).  Every history runs in a pristine forked
+    child.  Oracles: (a) the result of the last call equals the result of that call made as the ONLY
+    call of a process on a pool that received the same in-place edits (module-level caches keyed by
+    object identity or by too little, memoised tables); (b) results returned EARLIER in the history
+    are unchanged by the later events (results that are views of a module-level scratch buffer);
+    (c) no call modifies a pooled argument.
+    """
+    if equal is None:
+        def equal(a, b):
+            return _snap(a) == _snap(b)
+
+    def child(hist, only_last_call=False):
+        pool = make_pool()
+        kept = []
+        last = None
+        msg = None
+        for i, ev in enumerate(hist):
+            if ev[0] == "m":
+                mutate(ev[1:], pool)
+                continue
+            if only_last_call and i != len(hist) - 1:
+                continue
+            before = {k: _snap(v) for k, v in pool.items()}
+            try:
+                r = run(ev[1:], pool)
+                last = ("ok", r)
+            except Exception as e:
+                last = ("exc", "%s: %s" % (type(e).__name__, str(e)[:200]))
+                r = None
+            for k, v in pool.items():
+                if _snap(v) != before[k]:
+                    msg = "call %r modified its argument array %r" % (ev[1:], k)
+            if r is not None:
+                kept.append((i, r, _snap(r)))
+        if msg is None:
+            for i, r, s in kept:
+                if _snap(r) != s:
+                    msg = "the result returned by event %d %r changed during the later events %r" % (i, hist[i][1:], hist[i + 1:])
+                    break
+        is_call = bool(hist) and hist[-1][0] == "c"
+        key = fingerprint({k: _snap(v) for k, v in pool.items()}, module_state(*modules()))
+        return (last if is_call else None), msg, key
+
+    def execute(hist, rec):
+        st, out = in_child(lambda: child(hist))
+        if st != "ok":
+            rec.fail(hist, "history could not be executed: %s" % (out,))
+            return None
+        last, msg, key = out
+        if msg:
+            rec.fail(hist, msg)
+            return None
+        if last is not None and len(hist) > 1:
+            st1, out1 = in_child(lambda: child(hist, only_last_call=True))
+            if st1 != "ok":
+                rec.fail(hist, "reference run could not be executed: %s" % (out1,))
+                return None
+            ref = out1[0]
+            if last[0] != ref[0] or (last[0] == "ok" and not equal(last[1], ref[1])) or (last[0] == "exc" and last[1] != ref[1]):
+                def show(x):
+                    try:
+                        return repr([np.asarray(v).tolist() for v in (x if isinstance(x, (list, tuple)) else [x])])[:300]
+                    except Exception:
+                        return repr(x)[:300]
+                rec.fail(hist, "call %r gives %s %s after the earlier calls of the history %r, but %s %s when it is the "
+                               "only call of the process (same in-place edits of the arguments)"
+                         % (hist[-1][1:], last[0], show(last[1]), hist[:-1], ref[0], show(ref[1])))
+                return None
+        menu = [("c",) + tuple(c) for c in calls] + [("m",) + tuple(m) for m in mutations]
+        if enabled_after is not None:
+            menu = [e for e in menu if enabled_after(hist, e)]
+        return key, tuple(menu)
+
+    b = dict(calls=[repr(c) for c in calls], mutations=[repr(m) for m in mutations], depth=depth,
+             isolation="every history in a forked child with pristine module state; reference = the last call as the only "
+                       "call of a process")
+    b.update(bounds or {})
+    return ctx.histories(name, [()], execute, depth=depth, nodedup_depth=nodedup_depth, bounds=b)
